@@ -3,7 +3,7 @@
 # Round 2 (two changes per property): confirms change <n> of /tmp/seed2/<id>-out in the scratch worktree /tmp/seed2/<id>.
 export GOFLAGS=-mod=mod GOPROXY=off GOSUMDB=off
 id=$1; n=$2; pkg=$3; rx=$4; extra=$5
-wt=/tmp/seed2/$id; out=/tmp/seed2/$id-out
+base=/tmp/seed${SEED_ROUND:-2}; wt=$base/$id; out=$base/$id-out
 cd $wt || exit 2
 git checkout -q -- . && git clean -fdq
 demos=$(ls $out/demo${n}_*_test.go 2>/dev/null)
